@@ -169,6 +169,33 @@ class MList(SList):
         for path, kind in _paths(self.shape):
             self.arrs[path] = z3.Store(self.arrs[path], self.base, to_z3(_leaf(interp, v, path)))
         self.length = z3.simplify(self.length + 1)
+        self._rebase(interp)
+
+    def _rebase(self, interp):
+        """After the front of the list has moved (insert(0, .), del xs[0]): continue with fresh arrays in which
+        element k lives at index k again.  The link to the previous arrays is given by two axioms whose
+        triggers have no arithmetic (`new[j]` resp. `old[j]`), so that a witness index found for one of the
+        two lists is carried over to the other one by E-matching (statements with existential quantifiers over
+        the items of both lists)."""
+        b = z3.simplify(self.base)
+        if z3.is_int_value(b) and b.as_long() == 0:
+            return
+        st = interp.st
+        j = z3.Int('j!rebase')
+        new = {}
+        for path, kind in _paths(self.shape):
+            old = self.arrs[path]
+            suffix = ''.join('.%s' % (i,) for i in path)
+            if not z3.is_const(old):
+                named = z3.Array(st.fresh_name('%s@v%d%s' % (self.uid, self.version, suffix)), z3.IntSort(), _SORT[kind]())
+                st._add(named == old)
+                old = named
+            arr = z3.Array(st.fresh_name('%s@r%d%s' % (self.uid, self.version, suffix)), z3.IntSort(), _SORT[kind]())
+            st._add(z3.ForAll([j], z3.Select(arr, j) == z3.Select(old, j + b), patterns=[z3.Select(arr, j)]))
+            st._add(z3.ForAll([j], z3.Select(arr, j - b) == z3.Select(old, j), patterns=[z3.Select(old, j)]))
+            new[path] = arr
+        self.arrs = new
+        self.base = z3.IntVal(0)
 
     def pop(self, interp, pos=-1):
         st = interp.st
@@ -192,6 +219,7 @@ class MList(SList):
         self.version += 1
         self.base = z3.simplify(self.base + 1)
         self.length = z3.simplify(self.length - 1)
+        self._rebase(interp)
 
     def extend(self, interp, other):
         if isinstance(other, (list, tuple)):
